@@ -256,6 +256,8 @@ class Gen:
             return [st]
         if kind == "ascii":
             alphabet = "abcXYZ 019_-.,!?"
+            if r.random() < 0.15:
+                alphabet += "\u00e9\u30a2\u00a9"      # characters without an ASCII byte: they emit nothing and must occupy nothing
             return [{"k": "ascii", "t": "".join(r.choice(alphabet) for _ in range(r.randint(0, 12)))}]
         if kind == "org":
             if fr.in_macro or fr.in_loop:
@@ -281,8 +283,7 @@ class Gen:
             child = Frame("block", fr)
             return [{"k": "block", "b": self.body(child, depth + 1, r.randint(1, 6))}]
         if kind == "scope":
-            if fr.in_macro or fr.in_loop:
-                return None    # a named scope expanded twice would export the same names twice
+            # inside a loop iteration / macro application the exports go to that iteration's / application's own scope
             child = Frame("named", fr)
             ns = self.name("ns")
             b = self.body(child, depth + 1, r.randint(1, 6))
